@@ -65,7 +65,7 @@ theorem foldPrecAlgo_closed (inv : List (List K) → List (List K)) (rm : Bool) 
     (prec : F → List (List K)) (D : List (Obs L F K)) {R : Nat} (hbal : Balanced D R)
     (hM : 2 ≤ (sortedDistinct (D.map (·.fold))).length)
     (hsym : ∀ m ∈ sortedDistinct (D.map (·.fold)), ∀ n ∈ sortedDistinct (D.map (·.fold)),
-      ∀ k l, pairPrec inv prec m n k l = pairPrec inv prec m n l k) :
+      ∀ k l, k < P → l < P → pairPrec inv prec m n k l = pairPrec inv prec m n l k) :
     foldPrecAlgo inv rm P ((sortedDistinct (D.map (·.fold))).map prec) D
       = (pairsOf (sortedDistinct (D.map (·.cond)))).map (fun ab =>
           (ab, foldPrecSpec (xT rm P) P (pairPrec inv prec) D
